@@ -499,7 +499,7 @@ Definition contiguous (inv : ainv) : Prop :=
 Lemma entry_check_no_gv dbg cur cmp inv st cd e :
   entry_check dbg cur cmp inv st cd e <> XPanic SGetVersion.
 Proof.
-  unfold entry_check. destruct e as [p d0].
+  unfold entry_check, compare_paths. destruct e as [p d0].
   repeat match goal with
          | |- context [match ?x with _ => _ end] => destruct x
          end; discriminate.
@@ -707,179 +707,288 @@ Section Lift.
   Proof. intros. apply cross_loop_lift; auto. intros a c Hl. discriminate. Qed.
 End Lift.
 
-(** ** content_paths(..).unwrap() *)
+(** ** content_paths(..).unwrap_or(&no_paths) and PrettyPrintSet: nothing left that can panic *)
 
-(** what the E050 check (serde.rs:471-487) gives for an inventory that parsed without error:
-    every digest used by a state is a key of the manifest object *)
-Definition closed (inv : ainv) : Prop :=
-  forall v st p d, In (v, st) (i_versions inv) -> In (p, d) st -> lookup d (i_manifest inv) <> None.
-
-Definition good (inv : ainv) : Prop := closed inv /\ c17_empty_manifest_entry inv = false.
-
-Lemma existsb_false_in {A} (f : A -> bool) l x : existsb f l = false -> In x l -> f x = false.
-Proof.
-  intros H Hin. destruct (f x) eqn:E; [|reflexivity].
-  assert (existsb f l = true) by (apply existsb_exists; eauto). congruence.
-Qed.
-
-Lemma good_content_paths inv v st p d :
-  good inv -> In (v, st) (i_versions inv) -> In (p, d) st -> content_paths inv d <> None.
-Proof.
-  intros [Hc Hk] Hv Hp. unfold content_paths.
-  destruct (lookup d (i_manifest inv)) as [ps|] eqn:L; [|exfalso; eapply Hc; eauto].
-  apply lookup_in in L. unfold c17_empty_manifest_entry in Hk.
-  assert (E := existsb_false_in _ _ _ Hk L). cbn [snd] in E. rewrite E. discriminate.
-Qed.
-
-Lemma entry_check_content_paths dbg cur cmp inv cst st cd e :
-  good cmp -> good inv -> get_version cmp cur = Some cst -> get_version inv cur = Some st -> In e cst ->
-  entry_check dbg cur cmp inv st cd e <> XPanic SContentPaths.
-Proof.
-  intros Gc Gi E1 E2 Hin. unfold entry_check. destruct e as [p d0].
-  destruct (lookup p st) as [d|] eqn:L; [|discriminate].
-  destruct cd; [discriminate|].
-  assert (A : content_paths cmp d0 <> None).
-  { eapply good_content_paths; eauto. unfold get_version in E1. eapply lookup_in; eauto. }
-  assert (B : content_paths inv d <> None).
-  { eapply good_content_paths; eauto.
-    - unfold get_version in E2. eapply lookup_in; eauto.
-    - eapply lookup_in; eauto. }
-  destruct (content_paths cmp d0) as [cps|]; [|congruence].
-  destruct (content_paths inv d) as [ps|]; [|congruence].
-  repeat match goal with
-         | |- context [if ?x then _ else _] => destruct x
-         end; discriminate.
-Qed.
-
-Lemma cross_check_content_paths_guarded dbg root dirs :
-  good root -> Forall (fun d => good (snd d)) dirs -> cross_check dbg root dirs <> XPanic SContentPaths.
-Proof.
-  apply cross_check_lift; [discriminate|].
-  intros; eapply entry_check_content_paths; eauto.
-Qed.
-
-(** the unguarded case: a manifest entry with an empty array, used by a state, and a
-    version inventory written with another digest algorithm *)
-Definition w_root : ainv :=
-  mkI 512 2 [(1, [(1, 10); (2, 11)]); (2, [(1, 10); (2, 11)])] [(10, [(1, 1)]); (11, [])].
-Definition w_v1 : ainv :=
-  mkI 256 1 [(1, [(1, 20); (2, 21)])] [(20, [(1, 1)]); (21, [])].
-
-Lemma empty_manifest_entry_panics :
-  cross_check false w_root [(1, w_v1)] = XPanic SContentPaths /\
-  closed w_root /\ c17_empty_manifest_entry w_root = true /\ contiguous w_root /\ dir_ok w_root (1, w_v1).
-Proof.
-  split; [vm_compute; reflexivity|]. split.
-  { intros v st p d Hv Hp. cbn in Hv.
-    destruct Hv as [Hv|[Hv|[]]]; inversion Hv; subst; cbn in Hp;
-      destruct Hp as [Hp|[Hp|[]]]; inversion Hp; subst; vm_compute; discriminate. }
-  split; [vm_compute; reflexivity|].
-  split.
-  - intros k H1 H2. change (i_head w_root) with 2 in H2.
-    assert (k = 1 \/ k = 2) as [ -> | -> ] by lia; vm_compute; discriminate.
-  - unfold dir_ok. cbn [fst snd w_v1 w_root i_head]. repeat split; try lia.
-    intros k H1 H2. change (i_head w_v1) with 1 in H2. assert (k = 1) as -> by lia. vm_compute; discriminate.
-Qed.
-
-(** ** PrettyPrintSet *)
-
-Lemma pps_release len : pps_panics false len = false.
+(** types.rs:1353 after commit 547c92e: [saturating_sub] has no failing case, in either build mode *)
+Lemma pps_total dbg len : pps_panics dbg len = false.
 Proof. reflexivity. Qed.
 
-Lemma pps_total dbg len : dbg = false \/ len <> 0 -> pps_panics dbg len = false.
-Proof. unfold pps_panics. intros [->|H]; [reflexivity|]. destruct dbg; cbn [andb]; lia. Qed.
+(** and the text is the one intended: len - 1 separators, none for the empty set *)
+Lemma pps_display_exact dbg len : pps_display dbg len = Ok (len - 1).
+Proof. unfold pps_display, pps_max, usize_saturating_sub. f_equal. lia. Qed.
 
-Lemma entry_check_pps_release cur cmp inv st cd e :
-  entry_check false cur cmp inv st cd e <> XPanic SPrettyPrint.
+Lemma compare_paths_total pp cur cps ps : (forall n, pp n = false) ->
+  exists n, compare_paths pp cur cps ps = XOk n /\ n <= 1.
 Proof.
-  unfold entry_check, pps_panics. destruct e as [p d0]. cbn [andb orb].
-  repeat match goal with
-         | |- context [match ?x with _ => _ end] => destruct x
-         end; discriminate.
+  intros H. unfold compare_paths. rewrite !H. cbn [orb].
+  destruct (nlen cps =? 1).
+  - destruct (set_eqb cps ps); eexists; (split; [reflexivity|lia]).
+  - destruct (set_eqb (filter (fun cp : N * N => fst cp <=? cur) cps) ps); eexists; (split; [reflexivity|lia]).
 Qed.
 
-Lemma cross_check_pps_release root dirs : cross_check false root dirs <> XPanic SPrettyPrint.
+(** the loop body of validate_state_consistent records at most one E066 and returns, for ALL
+    inventories, states and entries, in both build modes *)
+Lemma entry_check_total dbg cur cmp inv st cd e :
+  exists n, entry_check dbg cur cmp inv st cd e = XOk n /\ n <= 1.
 Proof.
-  apply (cross_check_lift false SPrettyPrint (fun _ => True)).
+  unfold entry_check. destruct e as [p d0].
+  destruct (lookup p st) as [d|]; [|exists 1; split; [reflexivity|lia]].
+  destruct cd.
+  - destruct (d0 =? d); eexists; (split; [reflexivity|lia]).
+  - apply compare_paths_total. intros n. apply pps_total.
+Qed.
+
+Lemma entry_check_not_panic dbg cur cmp inv st cd e s :
+  entry_check dbg cur cmp inv st cd e <> XPanic s.
+Proof. destruct (entry_check_total dbg cur cmp inv st cd e) as [n [E _]]. rewrite E. discriminate. Qed.
+
+Lemma cross_check_content_paths_guarded dbg root dirs :
+  cross_check dbg root dirs <> XPanic SContentPaths.
+Proof.
+  apply (cross_check_lift dbg SContentPaths (fun _ => True)).
   - discriminate.
-  - intros; apply entry_check_pps_release.
+  - intros; apply entry_check_not_panic.
   - exact I.
   - apply Forall_forall; intros; exact I.
 Qed.
 
-Lemma forallb_false_ex {A} (f : A -> bool) l : forallb f l = false -> exists x, In x l /\ f x = false.
+Lemma cross_check_pps_total dbg root dirs : cross_check dbg root dirs <> XPanic SPrettyPrint.
 Proof.
-  induction l as [|a r IH]; cbn [forallb]; [discriminate|].
-  destruct (f a) eqn:E; cbn [andb].
-  - intros H. destruct (IH H) as [x [Hin Hx]]. exists x. split; [now right|assumption].
-  - intros _. exists a. split; [now left|assumption].
+  apply (cross_check_lift dbg SPrettyPrint (fun _ => True)).
+  - discriminate.
+  - intros; apply entry_check_not_panic.
+  - exact I.
+  - apply Forall_forall; intros; exact I.
 Qed.
 
-Lemma filter_nonempty {A} (f : A -> bool) l x : In x l -> f x = true -> filter f l <> [].
+Lemma subset_nil_r ps : subset ps [] = is_nil ps.
+Proof. destruct ps; reflexivity. Qed.
+
+(** a digest without entry in the manifest map (declared with an empty array) is compared as the
+    empty set: no error when the other side is empty too, one E066 otherwise *)
+Lemma entry_check_missing_entry dbg cur cmp inv st p cd d :
+  lookup p st = Some d -> content_paths cmp cd = None ->
+  entry_check dbg cur cmp inv st false (p, cd) =
+  XOk (if is_nil (paths_or_empty (content_paths inv d)) then 0 else 1).
 Proof.
-  intros Hin Hx Hnil. assert (In x (filter f l)) by (apply filter_In; auto). rewrite Hnil in H. destruct H.
+  intros L C. unfold entry_check. rewrite L, C. cbn [paths_or_empty].
+  unfold compare_paths. change (nlen (@nil (N * N)) =? 1) with false. cbv iota.
+  cbn [filter]. unfold set_eqb. cbn [subset forallb andb]. rewrite subset_nil_r.
+  rewrite !pps_total. cbn [orb].
+  destruct (paths_or_empty (content_paths inv d)); reflexivity.
 Qed.
 
-(** debug builds: only the filtered set can be empty, and only for inventories in the class *)
-Lemma entry_check_pps_debug dbg cur cmp inv cst st cd e :
-  c17_future_content cmp = false ->
-  get_version cmp cur = Some cst -> In e cst ->
-  entry_check dbg cur cmp inv st cd e <> XPanic SPrettyPrint.
+Lemma entry_check_missing_entry_other_side dbg cur cmp inv st p cd d cps :
+  lookup p st = Some d -> content_paths cmp cd = Some cps -> content_paths inv d = None ->
+  entry_check dbg cur cmp inv st false (p, cd) =
+  XOk (if nlen cps =? 1 then 1 else if is_nil (filter (fun cp => fst cp <=? cur) cps) then 0 else 1).
 Proof.
-  intros Hk E1 Hin. unfold entry_check. destruct e as [p d0].
-  destruct (lookup p st) as [d|]; [|discriminate].
-  destruct cd; [discriminate|].
-  destruct (content_paths cmp d0) as [cps|] eqn:C1; [|destruct (content_paths inv d); discriminate].
-  destruct (content_paths inv d) as [ps|] eqn:C2; [|discriminate].
-  assert (N1 := content_paths_nonempty _ _ _ C1). assert (N2 := content_paths_nonempty _ _ _ C2).
-  assert (P1 : pps_panics dbg (nlen cps) = false).
-  { apply pps_total. right. destruct cps; [congruence|]. rewrite nlen_cons. lia. }
-  assert (P2 : pps_panics dbg (nlen ps) = false).
-  { apply pps_total. right. destruct ps; [congruence|]. rewrite nlen_cons. lia. }
-  rewrite P1, P2. cbn [orb].
-  destruct (nlen cps =? 1) eqn:L1.
-  - destruct (set_eqb cps ps); discriminate.
-  - destruct (set_eqb (filter (fun cp => fst cp <=? cur) cps) ps); [discriminate|].
-    assert (P3 : pps_panics dbg (nlen (filter (fun cp : N * N => fst cp <=? cur) cps)) = false).
-    { apply pps_total. right.
-      unfold c17_future_content in Hk. unfold get_version in E1. apply lookup_in in E1.
-      assert (X := existsb_false_in _ _ _ Hk E1). cbn beta in X. cbn [snd fst] in X.
-      assert (Y := existsb_false_in _ _ _ X Hin). cbn beta in Y. cbn [snd] in Y.
-      rewrite C1, L1 in Y. cbn [negb andb] in Y.
-      apply forallb_false_ex in Y as [cp [Hcp Hlt]].
-      assert (F : filter (fun cp0 : N * N => fst cp0 <=? cur) cps <> []).
-      { eapply filter_nonempty; [exact Hcp|]. cbn beta. lia. }
-      destruct (filter (fun cp0 : N * N => fst cp0 <=? cur) cps); [congruence|]. rewrite nlen_cons. lia. }
-    rewrite P3. discriminate.
+  intros L C1 C2. unfold entry_check. rewrite L, C1, C2. cbn [paths_or_empty].
+  assert (Hne := content_paths_nonempty _ _ _ C1).
+  unfold compare_paths. rewrite !pps_total. cbn [orb].
+  unfold set_eqb. cbn [subset forallb]. rewrite !subset_nil_r, !Bool.andb_true_r.
+  destruct (nlen cps =? 1).
+  - destruct cps; [congruence|reflexivity].
+  - destruct (filter (fun cp : N * N => fst cp <=? cur) cps); reflexivity.
 Qed.
 
-Lemma cross_check_pps_guarded dbg root dirs :
-  c17_future_content root = false -> Forall (fun d => c17_future_content (snd d) = false) dirs ->
-  cross_check dbg root dirs <> XPanic SPrettyPrint.
+(** ** the whole loop returns a verdict *)
+
+Lemma entries_check_total dbg cur cmp inv st cd : forall l acc,
+  exists n, entries_check dbg cur cmp inv st cd l acc = XOk n /\ n <= acc + nlen l.
 Proof.
-  apply (cross_check_lift dbg SPrettyPrint (fun i => c17_future_content i = false)); [discriminate|].
-  intros; eapply entry_check_pps_debug; eauto.
+  induction l as [|e r IH]; intros acc; cbn [entries_check].
+  - exists acc. split; [reflexivity|rewrite nlen_nil; lia].
+  - destruct (entry_check_total dbg cur cmp inv st cd e) as [k [E Hk]]. rewrite E.
+    destruct (IH (acc + k)) as [n [En Hn]]. exists n. split; [exact En|]. rewrite nlen_cons. lia.
 Qed.
 
-(** the empty set does reach PrettyPrintSet in a debug build *)
+Lemma state_consistent_verdict dbg cur cmp inv cd :
+  get_version cmp cur <> None -> get_version inv cur <> None ->
+  exists n, state_consistent dbg cur cmp inv cd = XOk n.
+Proof.
+  intros H1 H2. unfold state_consistent.
+  destruct (get_version cmp cur) as [cst|]; [|congruence].
+  destruct (get_version inv cur) as [st|]; [|congruence].
+  destruct (entries_check_total dbg cur cmp inv st cd cst 0) as [n [E _]]. rewrite E. eexists; reflexivity.
+Qed.
+
+Lemma version_consistent_verdict dbg root other cmp : forall fuel cur acc,
+  contiguous root -> contiguous other ->
+  (forall c, cmp = Some c -> contiguous c /\ cur <= i_head c) ->
+  1 <= cur -> cur <= i_head root -> cur <= i_head other -> cur <= N.of_nat fuel + 1 ->
+  exists n, version_consistent dbg fuel cur root other cmp acc = XOk n.
+Proof.
+  induction fuel as [|f IH]; intros cur acc Hr Ho Hc H1 H2 H3 Hf; cbn [version_consistent].
+  all: destruct (get_version root cur) eqn:E1; [|exfalso; now apply (Hr cur)].
+  all: destruct (get_version other cur) eqn:E2; [|exfalso; now apply (Ho cur)].
+  all: assert (S : exists n, (match cmp with
+                    | Some c => state_consistent dbg cur c other true
+                    | None => state_consistent dbg cur root other false
+                    end) = XOk n).
+  1,3: destruct cmp as [c|];
+       [destruct (Hc c eq_refl) as [Hcc Hle]; apply state_consistent_verdict; [now apply Hcc|congruence]
+       |apply state_consistent_verdict; congruence].
+  all: destruct S as [n S]; rewrite S.
+  all: destruct (cur =? 1) eqn:E; [eexists; reflexivity|].
+  - lia.
+  - apply IH; try assumption; try lia.
+    intros c Hcs. destruct (Hc c Hcs). split; [assumption|lia].
+Qed.
+
+(** an inventory with versions v1..head has at least head entries in its versions map: the
+    fuel the model gives the descending loop is enough *)
+Lemma iota_in : forall k next x, In x (iota next k) -> next <= x /\ x < next + N.of_nat k.
+Proof.
+  induction k as [|k IH]; intros next x H; cbn [iota] in H; [destruct H|].
+  destruct H as [<-|H]; [lia|]. apply IH in H. lia.
+Qed.
+
+Lemma iota_nodup : forall k next, NoDup (iota next k).
+Proof.
+  induction k as [|k IH]; intros next; cbn [iota]; constructor; [|apply IH].
+  intros H. apply iota_in in H. lia.
+Qed.
+
+Lemma iota_length : forall k next, List.length (iota next k) = k.
+Proof. induction k as [|k IH]; intros next; cbn [iota List.length]; [reflexivity|now rewrite IH]. Qed.
+
+Lemma lookup_some_in_keys {A} k (l : list (N * A)) : lookup k l <> None -> In k (map fst l).
+Proof.
+  intros H. destruct (lookup k l) as [a|] eqn:E; [|congruence].
+  apply lookup_in in E. apply in_map_iff. exists (k, a). split; [reflexivity|assumption].
+Qed.
+
+Lemma contiguous_length inv : contiguous inv -> i_head inv <= nlen (i_versions inv).
+Proof.
+  intros C.
+  assert (I : incl (iota 1 (N.to_nat (i_head inv))) (map fst (i_versions inv))).
+  { intros x Hx. apply iota_in in Hx. apply lookup_some_in_keys. apply (C x); lia. }
+  apply (NoDup_incl_length (iota_nodup _ _)) in I. rewrite iota_length, map_length in I.
+  unfold nlen. lia.
+Qed.
+
+Lemma cross_loop_verdict dbg root : forall dirs seen acc bound,
+  contiguous root -> Forall (dir_ok root) dirs -> desc_from bound dirs ->
+  (forall a c, lookup a seen = Some c -> contiguous c /\ bound <= i_head c) ->
+  exists n, cross_loop dbg root dirs seen acc = XOk n.
+Proof.
+  induction dirs as [|[num inv] rest IH]; intros seen acc bound Hr Hd Hdesc Hseen; cbn [cross_loop];
+    [eexists; reflexivity|].
+  inversion Hd as [|? ? (Hc & H1 & H2 & H3) Hrest]; subst. cbn [fst snd] in *.
+  cbn [desc_from fst] in Hdesc. destruct Hdesc as [Hb Hdesc].
+  set (cmp := if i_alg root =? i_alg inv then Some root else lookup (i_alg inv) seen).
+  assert (V : exists n, version_consistent dbg (List.length (i_versions inv)) num root inv cmp 0 = XOk n).
+  { apply version_consistent_verdict; try assumption.
+    - intros c Hcs. unfold cmp in Hcs. destruct (i_alg root =? i_alg inv).
+      + inversion Hcs; subst. split; assumption.
+      + destruct (Hseen _ _ Hcs). split; [assumption|lia].
+    - assert (L := contiguous_length inv Hc). unfold nlen in L. lia. }
+  destruct V as [n V]. rewrite V.
+  apply (IH _ _ num); try assumption.
+  intros a c Hl. destruct (lookup (i_alg inv) seen) eqn:El.
+  - destruct (Hseen _ _ Hl). split; [assumption|lia].
+  - apply lookup_app in Hl as [Hl | -> ].
+    + destruct (Hseen _ _ Hl). split; [assumption|lia].
+    + split; assumption.
+Qed.
+
+Lemma cross_check_verdict dbg root dirs :
+  contiguous root -> Forall (dir_ok root) dirs -> desc_from (i_head root) dirs ->
+  exists n, cross_check dbg root dirs = XOk n.
+Proof.
+  intros. unfold cross_check. eapply cross_loop_verdict; eauto.
+  intros a c Hl. discriminate.
+Qed.
+
+Lemma object_cross_check_verdict dbg root found :
+  contiguous root -> Forall (found_ok root) found -> desc_from (i_head root) found ->
+  exists n, object_cross_check dbg root found = XOk n.
+Proof.
+  intros Hr Hf Hd. unfold object_cross_check. apply cross_check_verdict.
+  - exact Hr.
+  - apply Forall_forall. intros d Hin. apply filter_In in Hin as [Hin Hacc].
+    rewrite Forall_forall in Hf. destruct (Hf d Hin) as (Hc & H1 & H2).
+    unfold head_accepted in Hacc. unfold dir_ok. repeat split; try assumption. lia.
+  - now apply desc_from_filter.
+Qed.
+
+(** ** the formerly known inputs, now ordinary verdicts; and what the code of that time did *)
+
+(** what the E050 check (serde.rs:471-487) gives for an inventory that parsed without error:
+    every digest used by a state is a key of the manifest object - it does NOT give an entry in
+    the manifest map, which is why the unwraps of that time were unguarded *)
+Definition closed (inv : ainv) : Prop :=
+  forall v st p d, In (v, st) (i_versions inv) -> In (p, d) st -> lookup d (i_manifest inv) <> None.
+
+(** a manifest entry with an empty array, used by a state, and a version inventory written with
+    another digest algorithm: [w_v1] declares its digest 21 with [] as well (equal sets, no
+    error), [w_v1b] stores it under one content path (one E066) *)
+Definition w_root : ainv :=
+  mkI 512 2 [(1, [(1, 10); (2, 11)]); (2, [(1, 10); (2, 11)])] [(10, [(1, 1)]); (11, [])].
+Definition w_v1 : ainv :=
+  mkI 256 1 [(1, [(1, 20); (2, 21)])] [(20, [(1, 1)]); (21, [])].
+Definition w_v1b : ainv :=
+  mkI 256 1 [(1, [(1, 20); (2, 21)])] [(20, [(1, 1)]); (21, [(1, 2)])].
+
+Lemma empty_manifest_entry_verdict :
+  cross_check true w_root [(1, w_v1)] = XOk 0 /\ cross_check false w_root [(1, w_v1)] = XOk 0 /\
+  cross_check true w_root [(1, w_v1b)] = XOk 1 /\ cross_check false w_root [(1, w_v1b)] = XOk 1 /\
+  closed w_root /\ contiguous w_root /\ dir_ok w_root (1, w_v1) /\ dir_ok w_root (1, w_v1b).
+Proof.
+  do 4 (split; [vm_compute; reflexivity|]). split.
+  { intros v st p d Hv Hp. cbn in Hv.
+    destruct Hv as [Hv|[Hv|[]]]; inversion Hv; subst; cbn in Hp;
+      destruct Hp as [Hp|[Hp|[]]]; inversion Hp; subst; vm_compute; discriminate. }
+  split.
+  - intros k H1 H2. change (i_head w_root) with 2 in H2.
+    assert (k = 1 \/ k = 2) as [ -> | -> ] by lia; vm_compute; discriminate.
+  - split; unfold dir_ok; cbn [fst snd w_v1 w_v1b w_root i_head]; repeat split; try lia.
+    + intros k H1 H2. change (i_head w_v1) with 1 in H2. assert (k = 1) as -> by lia. vm_compute; discriminate.
+    + intros k H1 H2. change (i_head w_v1b) with 1 in H2. assert (k = 1) as -> by lia. vm_compute; discriminate.
+Qed.
+
+(** historical note - NOT the current code: the loop body before 7c90d82 panicked on this entry,
+    release and debug, although E050 held ([closed]) *)
+Lemma history_entry_check_before_fix_unwrap_none :
+  entry_check_before_fix false 1 w_root w_v1 [(1, 20); (2, 21)] false (2, 11) = XPanic SContentPaths /\
+  entry_check_before_fix true 1 w_root w_v1b [(1, 20); (2, 21)] false (2, 11) = XPanic SContentPaths /\
+  entry_check false 1 w_root w_v1 [(1, 20); (2, 21)] false (2, 11) = XOk 0 /\
+  entry_check true 1 w_root w_v1b [(1, 20); (2, 21)] false (2, 11) = XOk 1.
+Proof. repeat split; vm_compute; reflexivity. Qed.
+
+(** a state that uses a digest whose two content paths both lie in a later version: the filtered
+    set of mod.rs:1677-1685 is empty and is printed in the E066 message *)
 Definition w2_root : ainv :=
   mkI 512 2 [(1, [(1, 10)]); (2, [(1, 10)])] [(10, [(2, 1); (2, 2)])].
 Definition w2_v1 : ainv := mkI 256 1 [(1, [(1, 20)])] [(20, [(1, 1)])].
 
-Lemma empty_set_reaches_pretty_print :
-  cross_check true w2_root [(1, w2_v1)] = XPanic SPrettyPrint /\
-  cross_check false w2_root [(1, w2_v1)] = XOk 1 /\
-  c17_empty_pps true w2_root = true /\ c17_empty_manifest_entry w2_root = false.
+Lemma empty_set_is_printed :
+  cross_check true w2_root [(1, w2_v1)] = XOk 1 /\ cross_check false w2_root [(1, w2_v1)] = XOk 1 /\
+  pps_display true 0 = Ok 0 /\ pps_display false 0 = Ok 0 /\ pps_display true 3 = Ok 2.
 Proof. repeat split; vm_compute; reflexivity. Qed.
 
+(** historical note - NOT the current code: [len() - 1] before 547c92e panicked for the empty
+    set in a debug build (a release build wrapped to usize::MAX and printed "[]") *)
+Lemma history_pps_before_fix :
+  pps_panics_before_fix true 0 = true /\ pps_display_before_fix false 0 = Ok 0 /\
+  (forall dbg len, len <> 0 -> pps_display_before_fix dbg len = Ok (len - 1)) /\
+  entry_check_before_fix true 1 w2_root w2_v1 [(1, 20)] false (1, 10) = XPanic SPrettyPrint /\
+  entry_check_before_fix false 1 w2_root w2_v1 [(1, 20)] false (1, 10) = XOk 1 /\
+  entry_check true 1 w2_root w2_v1 [(1, 20)] false (1, 10) = XOk 1.
+Proof.
+  split; [vm_compute; reflexivity|]. split; [vm_compute; reflexivity|]. split.
+  - intros dbg len H. unfold pps_display_before_fix, pps_max_before_fix, usize_sub.
+    destruct (len <? 1) eqn:E; [lia|]. f_equal. lia.
+  - repeat split; vm_compute; reflexivity.
+Qed.
+
 Lemma cross_check_nonvacuous :
-  exists root v1, good root /\ good v1 /\ contiguous root /\ dir_ok root (1, v1) /\
-    c17_future_content root = false /\ cross_check true root [(1, v1)] = XOk 0.
+  exists root v1, closed root /\ closed v1 /\ contiguous root /\ dir_ok root (1, v1) /\
+    cross_check true root [(1, v1)] = XOk 0.
 Proof.
   exists (mkI 512 2 [(1, [(1, 10)]); (2, [(1, 10)])] [(10, [(1, 1)])]),
          (mkI 256 1 [(1, [(1, 20)])] [(20, [(1, 1)])]).
-  assert (G : forall inv, (forall v st p d, In (v, st) (i_versions inv) -> In (p, d) st -> d = 10 \/ d = 20) ->
-              (lookup 10 (i_manifest inv) <> None \/ lookup 20 (i_manifest inv) <> None) -> True) by auto.
   repeat split; try (vm_compute; reflexivity).
   - intros v st p d Hv Hp. cbn in Hv. destruct Hv as [Hv|[Hv|[]]]; inversion Hv; subst; cbn in Hp;
       destruct Hp as [Hp|[]]; inversion Hp; subst; vm_compute; discriminate.
@@ -1161,9 +1270,74 @@ Lemma cpi_example :
   cpi_walk vnum_eq_rust true 10 (mkV 5 3) (fun n => n =? 2) = Ok (Some (mkV 2 3)).
 Proof. vm_compute. reflexivity. Qed.
 
-(** * 8. the uriparse class: members and non-members *)
-Lemma colon_uri_examples :
-  c17_colon_uri (b ":") = true /\ c17_colon_uri (b "1:x") = true /\ c17_colon_uri (b "%3A:") = true /\
-  c17_colon_uri (b "urn:x") = false /\ c17_colon_uri (b "//h:1/p") = false /\ c17_colon_uri (b "a/b:c") = false /\
-  c17_colon_uri (b "") = false.
+(* ------------------------------------------------------------------ *)
+(** * 8. is_uri: the guard of commit 389bfd0 keeps the panicking inputs away from uriparse *)
+
+Lemma split_scheme_some s scheme : split_scheme s = Some scheme ->
+  existsb is_colon s = true /\ scheme = take_until is_colon s.
+Proof. unfold split_scheme. destruct (existsb is_colon s); [|discriminate]. intros H; inversion H; auto. Qed.
+
+(** a value that passes the scheme test is outside the set on which the parser panics *)
+Lemma uri_guard_safe s : uri_guard s = true -> uri_try_from_panics s = false.
+Proof.
+  unfold uri_guard. destruct (split_scheme s) as [scheme|] eqn:E; [|discriminate].
+  apply split_scheme_some in E as [_ ->]. intros H. unfold uri_try_from_panics. cbv zeta.
+  rewrite H. cbn [negb]. apply Bool.andb_false_r.
+Qed.
+
+(** and every value of that set fails the test *)
+Lemma uri_panics_guarded s : uri_try_from_panics s = true -> uri_guard s = false.
+Proof. intros H. destruct (uri_guard s) eqn:G; [|reflexivity]. apply uri_guard_safe in G. congruence. Qed.
+
+Section IsUriFacts.
+  Variable uri_ok : bytes -> bool.
+
+  Lemma is_uri_exact s : is_uri uri_ok s = Ok (uri_guard s && uri_ok s).
+  Proof.
+    unfold is_uri, is_uri_run. destruct (uri_guard s) eqn:G; cbn [fst andb]; [|reflexivity].
+    unfold uri_try_from. now rewrite (uri_guard_safe s G).
+  Qed.
+
+  Lemma is_uri_total s : is_uri uri_ok s <> Panic.
+  Proof. rewrite is_uri_exact. discriminate. Qed.
+
+  (** every call of the parser is made on a value on which it returns *)
+  Lemma is_uri_calls_safe s : Forall (fun a => uri_try_from_panics a = false) (is_uri_calls uri_ok s).
+  Proof.
+    unfold is_uri_calls, is_uri_run. destruct (uri_guard s) eqn:G; cbn [snd]; constructor; [|constructor].
+    now apply uri_guard_safe.
+  Qed.
+
+  (** a value without valid scheme is "not a URI" (W005 / W009) and the parser is not called *)
+  Lemma is_uri_schemeless s : uri_guard s = false ->
+    is_uri uri_ok s = Ok false /\ is_uri_calls uri_ok s = [].
+  Proof. intros G. unfold is_uri, is_uri_calls, is_uri_run. rewrite G. split; reflexivity. Qed.
+
+  (** in particular the whole formerly known class *)
+  Lemma is_uri_former_class s : uri_try_from_panics s = true ->
+    is_uri uri_ok s = Ok false /\ is_uri_calls uri_ok s = [] /\ is_uri_before_fix uri_ok s = Panic.
+  Proof.
+    intros H. destruct (is_uri_schemeless s (uri_panics_guarded s H)) as [A C].
+    repeat split; try assumption. unfold is_uri_before_fix, uri_try_from. now rewrite H.
+  Qed.
+
+  (** the guard refuses nothing the parser could accept as long as the parser accepts only values
+      with an RFC 3986 scheme: then is_uri = what the unguarded call answered where it returned *)
+  Lemma is_uri_agrees_with_parser s :
+    (uri_ok s = true -> uri_guard s = true) -> uri_try_from_panics s = false ->
+    is_uri uri_ok s = is_uri_before_fix uri_ok s.
+  Proof.
+    intros H P. rewrite is_uri_exact. unfold is_uri_before_fix, uri_try_from. rewrite P. f_equal.
+    destruct (uri_ok s); [rewrite H by reflexivity; reflexivity|apply Bool.andb_false_r].
+  Qed.
+End IsUriFacts.
+
+Lemma uri_guard_examples :
+  uri_guard (b ":") = false /\ uri_guard (b "1:x") = false /\ uri_guard (b "%3A:") = false /\
+  uri_guard (b "-:x") = false /\ uri_guard (b "::") = false /\ uri_guard (b "") = false /\
+  uri_guard (b "no colon") = false /\ uri_guard (b "a/b:c") = false /\
+  uri_guard (b "urn:x") = true /\ uri_guard (b "a+.-1:x") = true /\ uri_guard (b "mailto:a@b") = true /\
+  uri_try_from_panics (b ":") = true /\ uri_try_from_panics (b "1:x") = true /\
+  uri_try_from_panics (b "%3A:") = true /\ uri_try_from_panics (b "urn:x") = false /\
+  uri_try_from_panics (b "//h:1/p") = false /\ uri_try_from_panics (b "a/b:c") = false.
 Proof. repeat split; vm_compute; reflexivity. Qed.
